@@ -19,7 +19,7 @@ import (
 )
 
 const (
-	origFuel     = 300000
+	origFuel     = 120000
 	origStack    = 150
 	variantStack = 1500
 )
